@@ -29,7 +29,8 @@ def run(ctx):
              "passthrough and async cache commit as oracle-only streams) -> random histories of read / chunk lookup / "
              "lookup+getattr+readlink / readdir / getxattr+listxattr / prefetch-store with an offset filter / "
              "background fetch / eviction / truncated cache entry / loss of the compressed cache / registry faults / "
-             "concurrent readers; every read, lookup, listing, attribute block and xattr is compared with the tar "
+             "concurrent readers / a second reader scheduled between a reader's cache hit and its use of the entry "
+             "(small on-memory LRU in front of the directory cache; oracle-only); every read, lookup, listing, attribute block and xattr is compared with the tar "
              "itself (oracle) and with the Lean model (chunk lookup, read arithmetic incl. which chunks get stored, "
              "tarView + entryToAttr for metadata); both metadata stores (db store from the cmd module); a history is "
              "distinct by (build options, stack configuration, #entries, #chunks, op shape). Hand-written scenarios "
